@@ -1,1 +1,215 @@
-fn main() {}
+//! C18, runtime half: one Arc<RuleSet> evaluated from N threads, the evaluation futures migrating
+//! between threads at every suspension; every outcome and every per-evaluation invocation log must
+//! equal the sequential baseline. Run natively (stress), under ThreadSanitizer and under Miri.
+//!   c18mt <threads> <evaluations-per-thread> <seed> [jitter]
+
+use reval::expr::{Expr, Index};
+use reval::prelude::*;
+use rvmon::exec::{noop_waker, CURRENT_EVAL};
+use rvmon::fixture::build;
+use rvmon::instr::{Entry, FaultPlan, FnDesc, Kind};
+use rvmon::refeval::{classify, Obs};
+use rvmon::rng::Rng;
+use std::collections::{BTreeMap, VecDeque};
+use std::future::Future;
+use std::pin::Pin;
+use std::sync::atomic::{AtomicU64, Ordering};
+use std::sync::{Arc, Mutex};
+use std::task::{Context, Poll};
+
+type Rendered = Vec<(String, String)>;
+type Task = Pin<Box<dyn Future<Output = Rendered> + Send + 'static>>;
+
+fn render(outs: reval::Result<Vec<reval::ruleset::Outcome<'_>>>) -> Rendered {
+    match outs {
+        Ok(v) => v
+            .into_iter()
+            .map(|o| {
+                let obs = match o.value {
+                    Ok(v) => Obs::Val(v),
+                    Err(e) => classify(&e),
+                };
+                (o.rule.name().to_string(), format!("{obs:?}"))
+            })
+            .collect(),
+        Err(e) => vec![("<whole call>".into(), format!("Err({e})"))],
+    }
+}
+
+fn rules() -> Vec<(String, Expr)> {
+    let call = |f: &str, a: Expr| Expr::func(f, a);
+    let mut m = BTreeMap::new();
+    m.insert("z".to_string(), call("s1", Expr::reff("a")));
+    m.insert("a".to_string(), call("n1", Expr::reff("b")));
+    vec![
+        ("arith".into(), Expr::add(Expr::reff("a"), Expr::value(1))),
+        ("cached twice".into(), Expr::Vec(vec![call("s1", Expr::reff("a")), call("s1", Expr::reff("a")), call("s1", Expr::reff("b"))])),
+        ("non-cacheable".into(), Expr::Vec(vec![call("n1", Expr::reff("a")), call("n1", Expr::reff("a"))])),
+        ("symbol".into(), Expr::eq(Expr::symbol("limit"), Expr::reff("b"))),
+        ("failing".into(), call("e1", Expr::reff("a"))),
+        ("lazy".into(), Expr::iif(Expr::lt(Expr::reff("b"), Expr::value(1)), call("s2", Expr::reff("a")), Expr::index(Expr::reff("facts"), Index::from("missing")))),
+        ("map order".into(), Expr::Map(m)),
+        ("type error".into(), Expr::add(Expr::reff("a"), Expr::value("x".to_string()))),
+    ]
+}
+
+fn input(i: u64) -> Value {
+    let mut m = BTreeMap::new();
+    m.insert("a".to_string(), Value::Int(i as i128));
+    m.insert("b".to_string(), Value::Int((i % 3) as i128));
+    Value::Map(m)
+}
+
+fn log_of(entries: &[Entry], eval: u64) -> Vec<String> {
+    entries.iter().filter(|e| e.eval == eval).map(|e| format!("{}({:?})", e.func, e.arg)).collect()
+}
+
+/// A deliberate data race, used only to show that the sanitizer build is live (it must report it).
+fn tsan_canary() {
+    static mut COUNTER: u64 = 0;
+    let hs: Vec<_> = (0..2)
+        .map(|_| {
+            std::thread::spawn(|| {
+                for _ in 0..10_000 {
+                    unsafe {
+                        let p = std::ptr::addr_of_mut!(COUNTER);
+                        p.write_volatile(p.read_volatile() + 1);
+                    }
+                }
+            })
+        })
+        .collect();
+    for h in hs {
+        h.join().unwrap();
+    }
+    println!("canary done");
+}
+
+fn main() {
+    let args: Vec<String> = std::env::args().collect();
+    if args.get(1).map(|s| s == "tsan-canary").unwrap_or(false) {
+        tsan_canary();
+        return;
+    }
+    let threads: usize = args.get(1).and_then(|s| s.parse().ok()).unwrap_or(4);
+    let per_thread: u64 = args.get(2).and_then(|s| s.parse().ok()).unwrap_or(20);
+    let seed: u64 = args.get(3).and_then(|s| s.parse().ok()).unwrap_or(1);
+    let jitter = args.get(4).map(|s| s == "jitter").unwrap_or(false);
+
+    let descs = vec![
+        FnDesc { name: "s1", cacheable: true, kind: Kind::Tag, suspend: 2 },
+        FnDesc { name: "s2", cacheable: true, kind: Kind::V, suspend: 1 },
+        FnDesc { name: "n1", cacheable: false, kind: Kind::Tag, suspend: 1 },
+        FnDesc { name: "e1", cacheable: true, kind: Kind::E, suspend: 1 },
+    ];
+    let mut symbols = BTreeMap::new();
+    symbols.insert("limit".to_string(), Value::Int(1));
+    let fx = build(&descs, &symbols, &rules(), FaultPlan::default());
+    let log = fx.log.clone();
+    let ruleset: Arc<RuleSet> = Arc::new(fx.ruleset);
+    let total = threads as u64 * per_thread;
+
+    // sequential baseline: one evaluation after another on this thread
+    let mut expected: Vec<(Rendered, Vec<String>)> = Vec::with_capacity(total as usize);
+    for i in 0..total {
+        log.take();
+        CURRENT_EVAL.with(|c| c.set(i + 1));
+        let facts = input(i);
+        let r = render(rvmon::exec::block_on(ruleset.evaluate_value(&facts)));
+        let l = log_of(&log.take(), i + 1);
+        expected.push((r, l));
+    }
+    log.take();
+
+    // concurrent: a shared run queue; every poll of a task may happen on a different thread
+    let queue: Arc<Mutex<VecDeque<(u64, Task, Option<std::thread::ThreadId>)>>> = Arc::new(Mutex::new(VecDeque::new()));
+    for i in 0..total {
+        let rs = ruleset.clone();
+        let t: Task = Box::pin(async move {
+            let facts = input(i);
+            render(rs.evaluate_value(&facts).await)
+        });
+        queue.lock().unwrap().push_back((i, t, None));
+    }
+    let results: Arc<Mutex<BTreeMap<u64, Rendered>>> = Arc::new(Mutex::new(BTreeMap::new()));
+    let migrations = Arc::new(AtomicU64::new(0));
+    let migrated_tasks: Arc<Mutex<std::collections::BTreeSet<u64>>> = Arc::new(Mutex::new(Default::default()));
+    let polls = Arc::new(AtomicU64::new(0));
+    let mut handles = vec![];
+    for t in 0..threads {
+        let queue = queue.clone();
+        let results = results.clone();
+        let migrations = migrations.clone();
+        let migrated_tasks = migrated_tasks.clone();
+        let polls = polls.clone();
+        let mut rng = Rng::new(seed, "c18mt", t as u64);
+        handles.push(std::thread::spawn(move || {
+            let waker = noop_waker();
+            let mut cx = Context::from_waker(&waker);
+            let me = std::thread::current().id();
+            loop {
+                let item = {
+                    let mut q = queue.lock().unwrap();
+                    // take from a random end so that the order of tasks varies between threads
+                    if rng.chance(1, 2) { q.pop_front() } else { q.pop_back() }
+                };
+                let Some((id, mut task, last)) = item else { break };
+                if let Some(l) = last {
+                    if l != me {
+                        migrations.fetch_add(1, Ordering::Relaxed);
+                        migrated_tasks.lock().unwrap().insert(id);
+                    }
+                }
+                CURRENT_EVAL.with(|c| c.set(id + 1));
+                polls.fetch_add(1, Ordering::Relaxed);
+                match task.as_mut().poll(&mut cx) {
+                    Poll::Ready(r) => {
+                        results.lock().unwrap().insert(id, r);
+                    }
+                    Poll::Pending => {
+                        if jitter {
+                            if rng.chance(1, 4) {
+                                std::thread::yield_now();
+                            } else if rng.chance(1, 50) {
+                                std::thread::sleep(std::time::Duration::from_micros(50));
+                            }
+                        }
+                        queue.lock().unwrap().push_back((id, task, Some(me)));
+                    }
+                }
+            }
+        }));
+    }
+    for h in handles {
+        h.join().expect("worker thread panicked");
+    }
+    let entries = log.take();
+    let mut by_eval: std::collections::HashMap<u64, Vec<String>> = std::collections::HashMap::new();
+    for e in &entries {
+        by_eval.entry(e.eval).or_default().push(format!("{}({:?})", e.func, e.arg));
+    }
+    let results = results.lock().unwrap();
+    let mut mismatches = vec![];
+    for i in 0..total {
+        let (want_r, want_l) = &expected[i as usize];
+        match results.get(&i) {
+            None => mismatches.push(format!("evaluation {i}: no result")),
+            Some(r) => {
+                if r != want_r {
+                    mismatches.push(format!("evaluation {i}: outcomes differ from the sequential run: {r:?} vs {want_r:?}"));
+                }
+            }
+        }
+        let l = by_eval.remove(&(i + 1)).unwrap_or_default();
+        if &l != want_l {
+            mismatches.push(format!("evaluation {i}: invocation log differs from the sequential run: {l:?} vs {want_l:?}"));
+        }
+    }
+    let out = serde_json::json!({
+        "threads": threads, "evaluations": total, "polls": polls.load(Ordering::Relaxed), "migrations": migrations.load(Ordering::Relaxed), "tasks_migrated": migrated_tasks.lock().unwrap().len(),
+        "mismatches": mismatches.len(), "first_mismatches": mismatches.iter().take(3).collect::<Vec<_>>(),
+        "sample_outcome": expected.get(1).map(|e| format!("{:?}", e.0)),
+    });
+    println!("C18MT {out}");
+    std::process::exit(if mismatches.is_empty() { 0 } else { 1 });
+}
